@@ -49,6 +49,9 @@ def _case(draw, tier):
     if draw(st.booleans()):
         ids[1] = draw(st.sampled_from(["x/", "pre:", "0"])) + ids[0]   # ids[0] is a suffix of ids[1]
     ids.append(ids[1] + draw(st.sampled_from([".2", "/v2", "x"])))    # ids[3] extends ids[1]
+    for i in range(len(ids)):                                          # the four identifiers must be distinct
+        while ids[i] in ids[:i]:
+            ids[i] += "'"
     fmts = [draw(st.sampled_from(["http://www.ns.test/v1", "c", "fmt/../x"])),
             draw(st.one_of(st.just("bc"), c18._base().filter(lambda s: len(s) < 200)))]
     if fmts[0] == fmts[1]:
